@@ -20,8 +20,7 @@ Open Scope list_scope.
 (* The empty map has unique ids and every operation that succeeds preserves that, under the side condition
    [safe] of the few operations that do not re-check ids themselves: prefix/suffix need every resource to
    still have the kind it started with (the skip decision looks at the original kind); the namespace
-   transformer needs a map without empty resources; hashing needs equal-length hashes and no plain resource
-   that already carries a hashed name; an unchecked rename (JSON patch / replacement writing metadata.name)
+   transformer needs a map without empty resources; an unchecked rename (JSON patch / replacement writing metadata.name)
    is outside the domain; AbsorbAll and ApplySmPatch are stated for absorbed / patched resources that have a name
    (the model does not distinguish a missing metadata.name from `name: ""`, which these two write). Append, AppendAll (cross-layer merge), Replace, Remove, AbsorbAll, DropEmpties,
    Clear, legacy sort, IgnoreLocal and the annotation removal need nothing. *)
@@ -68,17 +67,19 @@ Theorem C07_ids_unique_after_namespace :
 Proof. exact ns_all_unique. Qed.
 Print Assumptions C07_ids_unique_after_namespace.
 
-(* Hash suffixes: the HashTransformer renames without re-checking. Full statement
-     forall h m m', Inv m -> hash_all h m = Ok m' -> Inv m'
-   is refuted in the model (a plain resource already carrying the hashed name); what holds: *)
-Theorem C07_ids_unique_hash_refuted : exists h m m', Inv m /\ hash_all h m = Ok m' /\ ~ Inv m'.
-Proof. exact hash_all_refuted. Qed.
-Print Assumptions C07_ids_unique_hash_refuted.
+(* Hash suffixes: since the fix "HashTransformer checks that the hash-suffixed names do not collide with the id of
+   another resource" the transformer re-checks the ids it produced, and the step preserves uniqueness without any
+   side condition (it was refuted before the fix: C07 finding unsorted-localconfig-hash-collision). *)
+Theorem C07_ids_unique_hash : forall h m m', Inv m -> hash_all h m = Ok m' -> Inv m'.
+Proof. exact hash_all_inv. Qed.
+Print Assumptions C07_ids_unique_hash.
 
-Theorem C07_ids_unique_hash_partial :
-  forall h m m', Inv m -> hash_lengths_equal h -> no_plain_clash h m -> hash_all h m = Ok m' -> Inv m'.
-Proof. exact hash_all_inv_partial. Qed.
-Print Assumptions C07_ids_unique_hash_partial.
+(* regression: the former witness (a plain / local-config ConfigMap that already carries the hashed name of a generated
+   one) now makes the hash step fail *)
+Theorem C07_ids_unique_hash_regression :
+  Inv [w_plain; w_gen] /\ hash_all w_hash [w_plain; w_gen] = Err /\ hash_all w_hash [w_local; w_gen] = Err.
+Proof. exact hash_all_clash_regression. Qed.
+Print Assumptions C07_ids_unique_hash_regression.
 
 (* The output of a successful build under the default (legacy) order has unique ids, for EVERY accumulated
    map m — including maps produced by identity-rewriting patches: IgnoreLocal and the sort re-check. *)
@@ -87,19 +88,20 @@ Theorem C07_ids_unique_output_legacy :
 Proof. exact finalize_legacy_unique. Qed.
 Print Assumptions C07_ids_unique_output_legacy.
 
-(* Under `sortOptions: {order: fifo}` the full statement
-     forall h bm m out, Inv m -> finalize h false bm m = Ok out -> Inv out
-   is REFUTED (finding C07 fifo-localconfig-hash-collision): a resource marked local-config whose name
-   equals the hashed name of a generated ConfigMap survives IgnoreLocal and the output has the id twice. *)
-Theorem C07_ids_unique_output_fifo_refuted :
-  exists h bm m out, Inv m /\ finalize h false bm m = Ok out /\ ~ Inv out.
-Proof. exact finalize_fifo_refuted. Qed.
-Print Assumptions C07_ids_unique_output_fifo_refuted.
+(* Without sorting (sortOptions fifo, or the library default options): unique ids in, unique ids out - the statement that
+   was refuted before the fix. *)
+Theorem C07_ids_unique_output_fifo :
+  forall h bm m out, Inv m -> finalize h false bm m = Ok out -> Inv out.
+Proof. exact finalize_fifo_unique. Qed.
+Print Assumptions C07_ids_unique_output_fifo.
 
-Theorem C07_ids_unique_output_fifo_partial :
-  forall h bm m out, finalize h false bm m = Ok out -> (forall m1, hash_all h m = Ok m1 -> Inv m1) -> Inv out.
-Proof. exact finalize_fifo_unique_partial. Qed.
-Print Assumptions C07_ids_unique_output_fifo_partial.
+(* regression: the former witnesses (local-config or plain resource named like a hashed generated one) are build
+   errors now, for every order; none yields a duplicated id or a panic *)
+Theorem C07_ids_unique_output_regression :
+  Inv [w_local; w_gen] /\ finalize w_hash false [] [w_local; w_gen] = Err /\
+  finalize w_hash true [] [w_local; w_gen] = Err /\ finalize w_hash false [] [w_plain; w_gen] = Err.
+Proof. exact finalize_collision_regression. Qed.
+Print Assumptions C07_ids_unique_output_regression.
 
 (* uniqueness in the property's own terms: (group, version, kind, namespace, name) as written in the
    documents are pairwise distinct, the scope flag being a function of group/version/kind *)
@@ -142,6 +144,32 @@ Print Assumptions Gen_strips_classified.
 Theorem Gen_tail_order : tail_order_b = true.
 Proof. exact gen_tail_order. Qed.
 Print Assumptions Gen_tail_order.
+
+(* EVERY "<domain>/<name>" string constant / literal of non-test code under api/ and kyaml/ — whatever its family and
+   whether or not the build path uses it — is classified: an apiVersion, a key of a kustomize-owned family (then it is
+   one of the strings Gen_every_written_is_stripped ranges over), or a key of a listed foreign family; and no key is
+   concatenated at run time from a kustomize annotation domain *)
+Theorem Gen_qualified_classified : qualified_classified_b = true.
+Proof. exact gen_qualified_classified. Qed.
+Print Assumptions Gen_qualified_classified.
+
+(* every annotation WRITE SITE of api/ and kyaml/ — yaml.SetAnnotation(k, _), m[k] = _ on an annotation map that is
+   later stored with SetAnnotations, map literals given as Annotations, and calls of helpers that forward a parameter
+   as the key (appendCsvAnnotation, enable, AnnotateAll, injectAnnotation, copyAnnotations ...: fixpoint over the call
+   graph) — writes a constant key that krusty.Run removes (or that is allow-listed / not kustomize's), or is one of
+   the reviewed sites that only copy existing or user-supplied keys (Res/Hygiene.v dynamic_write_ok) *)
+Theorem Gen_write_sites_covered : write_sites_covered_b = true.
+Proof. exact gen_write_sites_covered. Qed.
+Print Assumptions Gen_write_sites_covered.
+
+(* the keys of the exec / KRM-function plugin protocol (kustomize.config.k8s.io/id, needs-hash, behavior) are
+   allow-listed, i.e. not among the keys krusty.Run strips, ONLY because the protocol itself takes them off again: the
+   translator checks that each removal is evaluated unconditionally for every resource read back / generated
+   (a removal moved into a branch - e.g. removeIDAnnotation only for resources whose id the old map already holds -
+   makes this fail; the build oracles then also find the leaking key with an exec function that renames a resource) *)
+Theorem Gen_plugin_protocol_removed : plugin_protocol_removed_b = true.
+Proof. exact gen_plugin_protocol_removed. Qed.
+Print Assumptions Gen_plugin_protocol_removed.
 
 Theorem Gen_requested_survive : requested_survive_b = true.
 Proof. exact gen_requested_survive. Qed.
